@@ -155,9 +155,11 @@ def _build_resume(gid, p):
         c2["fault_on"] = p.get("fault_on", "like")
         if path:
             c2["path"] = path
-        crashed = smcdrv.run_smc(c2, ids=ids, role="crashed")
+        # from_final: the run is not interrupted at a likelihood call at all - the job dies after the last
+        # checkpoint (the one written after the final stage) and is resumed from that one
+        crashed = smcdrv.run_smc(c2, ids=ids, role="single" if p.get("from_final") else "crashed")
         runs = [ref, crashed]
-        if crashed["status"] == "fault" and crashed["tracer"].payloads:
+        if (crashed["status"] == "fault" or (p.get("from_final") and crashed["status"] == "ok")) and crashed["tracer"].payloads:
             def source(run):
                 """the last checkpoint `run` wrote, in the form the route passes it"""
                 blob_ = run["tracer"].payloads[-1]
@@ -582,22 +584,24 @@ def corpus_resume(tier, seed, rnd):
     import smcdrv
     specs = []
     base_cfgs = []
-    n_cfg = 10 if tier == "quick" else 150
+    n_cfg = 12 if tier == "quick" else 150
     for i in range(n_cfg):
+        # the options rotate (every value of every option occurs whatever the seed); the seed varies the
+        # random streams, population sizes and widths
         c = dict(N=rnd.choice([4, 8]), width=rnd.choice([0.3, 0.5, 1.0]), seed=seed * 50 + i,
-                 every=rnd.choice([1, 1, 2, 3]), mcmc_steps=rnd.choice([1, 2]),
-                 sampler="minipcn_smc", rng_route=rnd.choice(["sample", "init"]),
-                 precond=rnd.choice(["none", "default", "affine", "full"]))
-        r = rnd.random()
-        if r < 0.25:
-            c.update(adaptive=False, n_steps=rnd.choice([2, 3, 4]))
-        elif r < 0.5:
-            c.update(max_n_steps=rnd.choice([2, 3, 6]))
-        elif r < 0.65:
+                 every=[1, 2, 1, 3][i % 4], mcmc_steps=[1, 2][(i // 2) % 2],
+                 sampler="minipcn_smc", rng_route=["sample", "init"][i % 2],
+                 precond=["none", "affine", "default", "full"][(i // 2) % 4])
+        kind = i % 4
+        if kind == 1:
+            c.update(adaptive=False, n_steps=[2, 3, 4][(i // 4) % 3])
+        elif kind == 2:
+            c.update(max_n_steps=[2, 3, 6][(i // 4) % 3])
+        elif kind == 3:
             c.update(min_step=0.15)
-        if rnd.random() < 0.4:
+        if i % 3 != 1:
             c["n_final"] = c["N"] * 2
-            if rnd.random() < 0.5:
+            if i % 3 == 0:
                 c["n_final_steps"] = 3
         base_cfgs.append(c)
     k = 0
@@ -620,6 +624,9 @@ def corpus_resume(tier, seed, rnd):
                 p["every_resume"] = rnd.choice([1, 2, 3])
             specs.append(_mk(k, "resume", p))
             k += 1
+        specs.append(_mk(k, "resume", {"cfg": c, "fault_k": None, "from_final": True,
+                                       "route": ["bytes", "dict", "path"][base_cfgs.index(c) % 3]}))
+        k += 1
     return specs
 
 
